@@ -140,6 +140,7 @@ func init() {
 	register(&PropertyRule{ID: "C15", Explain: "C15 (convergence): existence of each recovery edge only; see DESIGN.md §5 C15", Run: func(c *Check) {
 		g(c, "c15Recovery", c15Recovery)
 		g(c, "c10AutoLeave", c10AutoLeave)
+		g(c, "c15AutoLeaveRetried", c15AutoLeaveRetried)
 		g(c, "c10Hup", c10Hup) // a campaign is refused only for a committed, unapplied configuration change
 	}})
 	register(&PropertyRule{ID: "C03", Explain: "structural necessary conditions of C03 (log matching): see DESIGN.md §5 C03", Run: func(c *Check) {
